@@ -36,6 +36,7 @@ class Gen:
         self.r = r
         self.feat = feat            # dict of feature switches (steering around known findings)
         self.defined = set()        # names that may be defined at this point (over-approximation)
+        self.in_macro_body = False  # `defined` produced by a macro expansion is undefined behaviour in C: never there
         # Steering around the recorded macro-expansion findings F62/F63/F65 (see design-notes/C13.md):
         #   mode "acyclic": a macro body mentions only macros of lower rank (random order per unit), so no
         #                   macro is ever met while it is disabled; arguments may nest arbitrarily.
@@ -89,7 +90,7 @@ class Gen:
                 return [r.choice(EOBJ_U)]
             return ["("] + self.expr("U", 1) + [")"]
         # B
-        if k < 0.35:
+        if k < 0.35 and not self.in_macro_body:
             n = r.choice(OBJ + list(FUN) + EOBJ_S + EOBJ_U + PLAIN[:2])
             return ["defined", "(", n, ")"]
         return ["("] + self.expr("B", 1) + [")"]
@@ -138,6 +139,13 @@ class Gen:
                 if r.random() < 0.3 and self.feat["guards"]:
                     b = self.paren(["1", "/", "0"]) if r.random() < 0.5 else self.paren(["1", "%", r.choice(["0", "UNDEF1"])])
                     c = self.paren(["1", "<", "2"]) if r.random() < 0.5 else ["1"]
+                if self.feat.get("nested_ternary") and r.random() < 0.4:
+                    # a ? b : c ? d : e   and   a ? b ? c : d : e   (right-to-left grouping)
+                    c2 = self.operand("B", d - 1)
+                    x, y = self.atom(t), self.atom(t)
+                    inner = c2 + ["?"] + x + [":"] + y
+                    return self.paren(c + ["?"] + a + [":"] + inner) if r.random() < 0.5 else \
+                        self.paren(c + ["?"] + inner + [":"] + b)
                 return self.paren(c + ["?"] + a + [":"] + b)
             op = r.choice(["+", "-", "*", "/", "%", "&", "|", "^", "+", "-"])
             lt = t if r.random() < 0.7 else ("S" if t == "U" else "S")
@@ -183,6 +191,13 @@ class Gen:
 
     # ---- macro definitions ---------------------------------------------------------------------------
     def expr_macro_def(self):
+        self.in_macro_body = True
+        try:
+            return self.expr_macro_def_()
+        finally:
+            self.in_macro_body = False
+
+    def expr_macro_def_(self):
         r = self.r
         k = r.random()
         if k < 0.35:
@@ -536,12 +551,15 @@ def main(argv):
     hb = ck.harness("h_pp")
     db = ck.driver("drv_cpp")
     # feature switches read from the translator: which repairs are present in the tree under test
-    feat = {"guards": True, "elif_unevaluated": True, "unary_after_binary": False, "variadic": True, "self_ref": True}
+    feat = {"guards": True, "elif_unevaluated": True, "unary_after_binary": False, "nested_ternary": False, "variadic": True,
+            "self_ref": True}
     try:
         import gen_pp
         fl = gen_pp.flags()
         feat["guards"] = fl["shortCircuit"]
         feat["elif_unevaluated"] = fl["elifChecksStateFirst"]
+        feat["unary_after_binary"] = fl["unaryAfterBinaryFixed"]
+        feat["nested_ternary"] = fl["nestedTernaryFixed"]
         ck.cov["counters"]["tree_short_circuit"] = int(fl["shortCircuit"])
         ck.cov["counters"]["tree_elif_fixed"] = int(fl["elifChecksStateFirst"])
     except Exception as e:  # translator failure already recorded
